@@ -625,7 +625,7 @@ def compare(op, a, b):
         # numpy: `arr in [..]` -> ambiguous truth value; `arr in {..}` -> unhashable: both raise
         CTX.err(True, "ValueError/TypeError(array in container)")
         raise PathEnd()
-    if not is_sym(a) and not is_sym(b):
+    if not is_sym(a) and not is_sym(b) and not (isinstance(op, (ast.In, ast.NotIn)) and type(b).__name__ == "SymSet"):
         try:
             return _CMPS[type(op)](a, b)
         except TypeError as ex:
@@ -2074,6 +2074,22 @@ def _np_minimum(a, b):
     return mk_num(z3.If(ta <= tb, ta, tb), zor(float_guard(a), float_guard(b))) if y is float else Sym(z3.If(ta <= tb, ta, tb), int)
 
 
+def _i_getattr(args, kw):
+    """getattr(obj, "name"[, default]) with a literal name: a symbolic scalar is a python float/int/bool (no numpy attributes),
+    a symbolic column answers like the array it stands for"""
+    if len(args) < 2 or not isinstance(args[1], str):
+        raise Unsupported("getattr with a computed name")
+    obj, name = args[0], args[1]
+    if isinstance(obj, Sym):
+        if hasattr(obj.ty if isinstance(obj.ty, type) else float, name):
+            raise Unsupported(f"attribute {name} of a symbolic scalar")
+        if len(args) < 3:
+            raise Unsupported(f"getattr of a missing attribute {name} without default")
+        return args[2]
+    return getattr(obj, *args[1:])
+
+
+INTRINSICS[getattr] = _i_getattr
 INTRINSICS[numpy.logical_and] = _elementwise(_logical_and)
 INTRINSICS[numpy.logical_or] = _elementwise(_logical_or)
 INTRINSICS[numpy.logical_not] = _elementwise(_logical_not)
